@@ -412,6 +412,9 @@ def handleWS (i o : List String) : String :=
     if o.head? == some "HANG" then s!"VIOL the call never ends ({o.getD 1 ""})" else
     if o.head? == some "PANIC" then "VIOL panic" else
     if (kv? "hs" o).getD "returned" != "returned" then "VIOL handler=stuck: ServeHTTP did not return after the close frame" else
+    -- sp=mute: a client that never answers the close frame must not hold the handler beyond the close timeout
+    if (kv? "sp" i) == some "mute" && ((kv? "bound" o) != some "ok" || (kv? "tcp" o) != some "closed") then
+      s!"VIOL close handshake not bounded (bound={(kv? "bound" o).getD "?"} tcp={(kv? "tcp" o).getD "?"})" else
     match (kv? "up" o).bind String.toNat?, (kv? "ws" o).bind (parseList parseCB), kv? "cl" o,
           (kv? "rv" o).bind (parseList parseORes), (kv? "tg" o).bind (parseList parseCB),
           kv? "te" o, (kv? "sd" o).bind (parseList parseCB), kv? "oc" o, (kv? "tr" o).bind (parseList parseKV) with
@@ -419,7 +422,7 @@ def handleWS (i o : List String) : String :=
       let cs : Bool := k == "cs" || k == "bd"
       let ss : Bool := k == "ss" || k == "bd"
       let early : Bool := ea != "-"
-      let stalled : Bool := (kv? "sp" i).isSome
+      let stalled : Bool := (kv? "sp" i).isSome && (kv? "sp" i) != some "mute"
       let early : Bool := early || stalled
       let sf := ((kv? "sf" o).bind String.toNat?).getD 0
       -- `hd=<tag>:<cb>`: the tag (ok/bad/h) is a comment of the generator; whether the header message parses is
@@ -446,7 +449,8 @@ def handleWS (i o : List String) : String :=
         match judgeResp msgs block sd sf rs ss oc om with
         | some v => v
         | none =>
-          let spOK : Bool := !stalled || ((kv? "blk" o) == some "yes" && (kv? "fwd" o) == some "returned")
+          let spOK : Bool := !stalled || ((kv? "fwd" o) == some "returned" &&
+            ((kv? "sp" i) != some "stall" || (kv? "blk" o) == some "yes"))
           if !spOK then "DIFF model=stalled-send scenario not established" else
           let evs := wsEvents mdOkReal {} (hdBytes :: items.map WSItem.enc)
           -- the metadata Forward saw = FromIncomingContext(MD(mimeHeader)) of the parsed lines, keys sorted, values in order
@@ -465,7 +469,7 @@ def handleWS (i o : List String) : String :=
                     | some res => oresListEq rv res
                     | none => false)
           if !ltsOK then "DIFF model=handoff-lts" else
-          let rvOK : Bool := (early && !stalled) || oresListEq rv mrv
+          let rvOK : Bool := (early && !stalled) || (ea != "-" && (kv? "sp" i) == some "flood") || oresListEq rv mrv
           let md := match parseTrailer block with | some m => m | none => []
           let hmd := match hdr with | some h => (match parseTrailer h with | some m => m | none => [([0], [])]) | none => []
           let respOK : Bool := beqBs wsm (wsRespondWith hmd msgs md) && (hdr.isSome == !msgs.isEmpty) && hmd.isEmpty &&
@@ -480,6 +484,7 @@ def handleWS (i o : List String) : String :=
           else
             let big : Bool := items.any (fun it => (WSItem.enc it).length ≥ 65536) || rs.any (fun m => m.length ≥ 65536)
             let br := if !hdOK then "bad-header" else if rt ≠ "ok" then "route-fail"
+              else if (kv? "sp" i) == some "flood" then "flood-at-close"
               else if stalled then "stalled-send"
               else match rv.getLast? with
                 | some (.err _) => "recv-error"
